@@ -653,7 +653,7 @@ func execOp(h *gorm.DB, o Op) error {
 		for i, j := range o.Joins {
 			switch {
 			case o.JoinCond && i == 0 && j == "Company":
-				tx = tx.Joins(j, subHandle(h, "foreign").Where("name <> ?", "zz"))
+				tx = tx.Joins(j, subHandle(h, "foreign").Where(&Company{Name: "acme"}))
 			case o.InnerJ:
 				tx = tx.InnerJoins(j)
 			default:
@@ -818,7 +818,10 @@ func execOp(h *gorm.DB, o Op) error {
 		}
 		return q.Limit(2).Offset(1).Find(&ows).Error
 	case "connection":
-		return h.Connection(func(tx *gorm.DB) error {
+		return h.Connection(func(conn *gorm.DB) error {
+			// the handle Connection passes is a single ready instance (every chain call works on its one
+			// statement): a reusable session is derived from it before running more than one operation
+			tx := conn.Session(&gorm.Session{NewDB: true})
 			var ow Owner
 			if err := withPreloads(tx, o.Preloads).First(&ow, o.ID).Error; err != nil {
 				return err
